@@ -9,13 +9,15 @@ PROP = dict(
                "transport ciphertext, rotation) written in the harness; scripted in-memory "
                "pipe with partial writes/timeouts/segmented reads; generic first-deviation "
                "oracle for manipulated ciphertext streams; direct (key, nonce) monitor on the "
-               "AEAD; native fuzzing of byte-decoded plans (thorough)"),
+               "AEAD; both directions of one session driven concurrently by four goroutines under "
+               "the race detector (full-duplex plan, byte-exact in-order oracle); native fuzzing of byte-decoded plans (thorough)"),
     rule=("One case = one generated session. Machine level: (keys, bidirectional message "
           "plan with per-message partial-write scripts) / (keys, honest prefix, 1-4 victim "
           "frames, one manipulation, read API) / (keys, dialled key, every corruption of "
           "each act). Conn level: Dial<->Listener handshake over an in-memory connection "
           "with a wire fault, or a session of Write/WriteMessage+Flush/Read/ReadNext* "
-          "operations ending in a manipulation. A case is non-trivial when it is (a) a "
+          "operations ending in a manipulation. Duplex: (keys, per-direction message count, "
+          "size mix, wire fragmentation) sent in both directions at once. A case is non-trivial when it is (a) a "
           "transport plan in which at least one direction crosses a key rotation (>=500 "
           "messages = 1000 encryptions) and had >=1 timeout-interrupted, resumed Flush in "
           "that direction, or (b) a tamper case: a manipulated ciphertext stream "
@@ -23,7 +25,7 @@ PROP = dict(
           "bytes), a handshake whose acts were swept with corruptions or hit by a wire "
           "fault, or an initiator dialling a wrong static key. Honest controls (identical "
           "stream, fault-free handshake, plans without rotation or without partial flush) "
-          "are counted as trivial. Distinct = distinct (keys, plan / manipulation) "
+          "are counted as trivial; a duplex case is non-trivial when both directions carry >=200 messages. Distinct = distinct (keys, plan / manipulation) "
           "fingerprints."),
     assumptions=[
         "ChaCha20-Poly1305 forgeries and SHA-256/HKDF collisions do not occur (a manipulated frame or act that still authenticates is treated as impossible)",
@@ -41,6 +43,7 @@ PROP = dict(
             job("brontide", "^TestVerifC11Transport$", ["TestVerifC11Transport"], 220, shards=5),
             job("brontide", "^TestVerifC11Tamper$", ["TestVerifC11Tamper"], 1800, shards=4),
             job("brontide", "^TestVerifC11Conn$", ["TestVerifC11Conn"], 450, shards=3),
+            job("brontide", "^TestVerifC11Duplex$", ["TestVerifC11Duplex"], 40, shards=3, race=True),
         ],
         thorough=[
             job("brontide", "^TestVerifC11(RefVectors|Pinned)$", ["TestVerifC11RefVectors", "TestVerifC11Pinned"], 1, shards=1),
@@ -51,6 +54,8 @@ PROP = dict(
             job("brontide", "^TestVerifC11Tamper$", ["TestVerifC11Tamper"], 15000, shards=3, timeout=900),
             job("brontide", "^TestVerifC11Conn$", ["TestVerifC11Conn"], 1500, shards=2, timeout=900,
                 env=dict(VERIF_C11_CONN_STEPS=30)),
+            job("brontide", "^TestVerifC11Duplex$", ["TestVerifC11Duplex"], 300, shards=4, race=True, timeout=900,
+                env=dict(VERIF_C11_DUPLEX_MAX=4000)),
             job("brontide", "^FuzzVerifC11Plan$", ["FuzzVerifC11Plan"], 0, shards=1, timeout=900,
                 fuzz="^FuzzVerifC11Plan$", fuzztime="120s", parallel=4),
         ],
